@@ -3,8 +3,8 @@
 
 The sides of a processed SOURCE constraint are pulled back through `normalize` (`normalize_eval_eq_nc`), so the
 conclusion is about the expressions the user wrote.  The only case not covered by a lowering is the verdict
-`Tautology`/`Contradiction` of `try_normalize_logic_constraint` (finding 4), handled by the residual clause
-`VerdictDef`.
+`Tautology`/`Contradiction` of `try_normalize_logic_constraint`, which since rooc ba14904 is only given when the
+logic value passes the guard `!may_be_undefined()`.
 -/
 import Rooc.Proofs.LinDef2
 
@@ -65,6 +65,39 @@ theorem tryNormalize_assertion_shape {d : List (DomVar (Ext K))} {l r e : Exp (E
     · split at h <;> simp at h
     · split at h <;> simp at h <;> (obtain ⟨rfl, _⟩ := h; exact hshape)
 
+/-- a verdict decided from the literal alone is only given for a logic value that cannot be undefined
+(rooc ba14904); the other side is a literal. -/
+theorem tryNormalize_const_shape {d : List (DomVar (Ext K))} {l r : Exp (Ext K)} {cmp : Cmp}
+    (h : tryNormalize d l cmp r = some .tautology ∨ tryNormalize d l cmp r = some .contradiction) :
+    ∃ e, ((e = l ∧ ∃ c, r = .num c) ∨ (e = r ∧ ∃ c, l = .num c)) ∧ Exp.mayBeUndefined e = false := by
+  rw [tryNormalize_eq] at h
+  cases hp : pickOf d l cmp r with
+  | none => simp [hp] at h
+  | some p =>
+    obtain ⟨e', cmp', c'⟩ := p
+    have hshape : (e' = l ∧ ∃ c, r = .num c) ∨ (e' = r ∧ ∃ c, l = .num c) := by
+      unfold pickOf at hp
+      split at hp
+      · split at hp
+        · simp only [Option.some.injEq, Prod.mk.injEq] at hp
+          exact Or.inl ⟨hp.1.symm, _, rfl⟩
+        · simp at hp
+      · split at hp
+        · split at hp
+          · simp only [Option.some.injEq, Prod.mk.injEq] at hp
+            exact Or.inr ⟨hp.1.symm, _, rfl⟩
+          · simp at hp
+        · simp at hp
+    by_cases hu : Exp.mayBeUndefined e' = true
+    · exfalso
+      simp only [hp] at h
+      cases e' with
+      | num v => simp [Exp.mayBeUndefined] at hu
+      | _ =>
+        simp only [hu, if_true] at h
+        rcases h with h | h <;> (split at h <;> simp at h)
+    · exact ⟨e', hshape, by simpa using hu⟩
+
 /-- **one iteration of the loop on a source constraint**: when it succeeds, the left side — and for a comparison
 the right side — has a value at every assignment that satisfies the initial domains. -/
 theorem process_defined {d0 : List (DomVar (Ext K))} {c : Constraint (Ext K)} {s : St (Ext K)}
@@ -99,11 +132,19 @@ theorem process_defined {d0 : List (DomVar (Ext K))} {c : Constraint (Ext K)} {s
     | some nz =>
       cases nz with
       | tautology =>
-        obtain ⟨hdl, hdr⟩ := hc.verdict hA' lhs' rhs' hf1 hf2 ⟨s.domain, Or.inl hN⟩
-        exact ⟨(def_congr hevl).mpr (def_iff_exists.mpr (hdl ρ hd)), (def_congr hevr).mpr (def_iff_exists.mpr (hdr ρ hd))⟩
+        obtain ⟨e, hsh, hu⟩ := tryNormalize_const_shape (Or.inl hN)
+        rcases hsh with ⟨rfl, cst, hr⟩ | ⟨rfl, cst, hl⟩
+        · refine ⟨Def_of_total ρ _ hfl' hu, ?_⟩
+          rw [hr] at hfr' ⊢; exact Def_num_of_finite hfr'
+        · refine ⟨?_, Def_of_total ρ _ hfr' hu⟩
+          rw [hl] at hfl' ⊢; exact Def_num_of_finite hfl'
       | contradiction =>
-        obtain ⟨hdl, hdr⟩ := hc.verdict hA' lhs' rhs' hf1 hf2 ⟨s.domain, Or.inr hN⟩
-        exact ⟨(def_congr hevl).mpr (def_iff_exists.mpr (hdl ρ hd)), (def_congr hevr).mpr (def_iff_exists.mpr (hdr ρ hd))⟩
+        obtain ⟨e, hsh, hu⟩ := tryNormalize_const_shape (Or.inr hN)
+        rcases hsh with ⟨rfl, cst, hr⟩ | ⟨rfl, cst, hl⟩
+        · refine ⟨Def_of_total ρ _ hfl' hu, ?_⟩
+          rw [hr] at hfr' ⊢; exact Def_num_of_finite hfr'
+        · refine ⟨?_, Def_of_total ρ _ hfr' hu⟩
+          rw [hl] at hfl' ⊢; exact Def_num_of_finite hfl'
       | assertion e t =>
         simp only [hN] at h3
         rcases tryNormalize_assertion_shape hN with ⟨rfl, cst, hr⟩ | ⟨rfl, cst, hl⟩
